@@ -7,6 +7,9 @@ use tokio::io::{self, AsyncRead, AsyncReadExt};
 use self::chunks::read_chunks;
 use super::read_metadata;
 
+// The count comes from the input: use it as a capacity hint only up to this bound.
+const MAX_PREALLOCATED_LEN: usize = 1 << 16;
+
 pub(super) async fn read_bins<R>(
     reader: &mut R,
 ) -> io::Result<(IndexMap<usize, Bin>, Option<Metadata>)>
@@ -21,7 +24,7 @@ where
         usize::try_from(n).map_err(|e| io::Error::new(io::ErrorKind::InvalidData, e))
     })?;
 
-    let mut bins = IndexMap::with_capacity(n_bin);
+    let mut bins = IndexMap::with_capacity(n_bin.min(MAX_PREALLOCATED_LEN));
     let mut metadata = None;
 
     for _ in 0..n_bin {
